@@ -38,6 +38,8 @@
 #include <sys/resource.h>
 #include <unistd.h>
 #include <cmath>
+#include <atomic>
+#include <chrono>
 
 // The harness reads internal structure (grammar rules, hash slots, packed
 // words) without changing behaviour; layout is unaffected by access specifiers.
@@ -119,6 +121,40 @@ struct Case {
     auto it = par.find(k); return it == par.end() ? d : atol(it->second.c_str());
   }
 };
+
+// ---------------------------------------------------------------------------
+// Schedule perturbation through the LIBCSD_VERIF_POINT hooks (C09-C11).
+struct Perturb {
+  int strategy = 0;      // 0 none, 1 random short delays, 2 pause when the wait predicate is false, 3 both, 4 slow producer, 5 slow workers
+  uint64_t seed = 1;
+};
+static Perturb g_perturb;
+static std::atomic<uint64_t> g_pcount{0};
+static thread_local int tl_phase = 0; // 1 = between "w.locked" and "w.awake" (inside cv.wait / its predicate)
+
+static inline uint64_t mix(uint64_t z) {
+  z += 0x9E3779B97F4A7C15ULL; z = (z ^ (z >> 30)) * 0xBF58476D1CE4E5B9ULL; z = (z ^ (z >> 27)) * 0x94D049BB133111EBULL; return z ^ (z >> 31);
+}
+
+extern "C" void libcsd_verif_point(const char *where, long value) {
+  if (!strcmp(where, "w.locked")) tl_phase = 1;
+  else if (!strcmp(where, "w.awake")) tl_phase = 0;
+  int st = g_perturb.strategy;
+  if (st == 0) return;
+  uint64_t n = g_pcount.fetch_add(1);
+  uint64_t r = mix(g_perturb.seed * 1315423911ULL + n * 2654435761ULL + (uint64_t)where[0] * 131 + (uint64_t)where[2]);
+  if ((st == 2 || st == 3) && tl_phase == 1 && !strcmp(where, "q.empty") && value == 1) {
+    // the predicate is about to be false: widen the window before the thread blocks
+    std::this_thread::sleep_for(std::chrono::microseconds(1500 + r % 1500));
+    return;
+  }
+  if (st == 1 || st == 3) {
+    if (r % 4 == 0) std::this_thread::sleep_for(std::chrono::microseconds(r % 300));
+    else if (r % 4 == 1) std::this_thread::yield();
+  }
+  if (st == 4 && where[0] == 'p') std::this_thread::sleep_for(std::chrono::microseconds(200 + r % 400));
+  if (st == 5 && where[0] == 'w') std::this_thread::sleep_for(std::chrono::microseconds(100 + r % 300));
+}
 
 // ---------------------------------------------------------------------------
 // Pattern buffers: exact-size heap allocations so ASan sees any over-read, and
@@ -389,6 +425,26 @@ static void runDict(const Case &c) {
       StringDictionary *nd = loadOwn(op[1], ss, 1);
       emit("F %s", nd ? "LOADED" : "NULL");
       delete nd;
+    } else if (o == "blocksdet") { // blocksdet <strategy> <seed> <thr> <thr> ... : images equal the single-thread image
+      Case c1 = c; c1.par["thr"] = "1";
+      g_perturb.strategy = 0;
+      StringDictionary *d1 = construct(c1);
+      string ref = saveImage(d1); delete d1;
+      string verdict = "same";
+      for (size_t i = 3; i < op.size(); i++) {
+        Case ci = c; ci.par["thr"] = op[i];
+        g_perturb.strategy = atoi(op[1].c_str());
+        g_perturb.seed = strtoull(op[2].c_str(), nullptr, 10) + i;
+        StringDictionary *di = construct(ci);
+        g_perturb.strategy = 0;
+        // every block is complete when the constructor returns
+        auto *bd = (StringDictionaryHASHRPDACBlocks *)di;
+        for (auto *p : bd->parts) if (!p) verdict = "incomplete@thr" + op[i];
+        string img = verdict == "same" ? saveImage(di) : string();
+        delete di;
+        if (verdict == "same" && img != ref) verdict = "diff@thr" + op[i];
+      }
+      emit("BD %s", verdict.c_str());
     } else if (o == "iopen") { // iopen <name> pre|xpre|sub|xsub|tab <hex>
       Pat p(unhex(op.size() > 3 ? op[3] : "-"));
       OpenIter oi;
@@ -494,11 +550,59 @@ static void runLogSeq(const Case &c) {
   delete ls;
 }
 
+static void runPool(const Case &c) {
+  for (auto &op : c.ops) {
+    g_op++;
+    if (op[0] == "pool") { // pool <N> <T> <stopmode> <strategy> <seed>
+      int N = atoi(op[1].c_str()), T = atoi(op[2].c_str());
+      string mode = op[3];
+      g_perturb.strategy = atoi(op[4].c_str());
+      g_perturb.seed = strtoull(op[5].c_str(), nullptr, 10);
+      std::vector<std::atomic<int>> counts(T > 0 ? T : 1);
+      for (auto &x : counts) x = 0;
+      std::atomic<int> running{0}, maxrunning_same{0};
+      std::vector<std::atomic<int>> active(T > 0 ? T : 1);
+      for (auto &x : active) x = 0;
+      std::mutex m; std::condition_variable cv; int done = 0;
+      {
+        WorkerPool wpool(N);
+        for (int i = 0; i < T; i++) {
+          wpool.add_task([&, i]() {
+            if (active[i].fetch_add(1) != 0) maxrunning_same = 1; // a task concurrent with itself
+            counts[i]++;
+            volatile unsigned long rr = 0;
+            for (unsigned long j = 0; j < 200; j++) rr += (rr + j * i) ^ rr;
+            active[i].fetch_sub(1);
+            bool last = false;
+            { std::lock_guard<std::mutex> lg(m); done++; last = (done == T); }
+            cv.notify_all();
+            if (mode == "stoplast" && last) wpool.stop_all_workers();
+          });
+        }
+        if (mode == "waitdone") {
+          std::unique_lock<std::mutex> ul(m);
+          cv.wait(ul, [&]() { return done == T; });
+          ul.unlock();
+          wpool.stop_all_workers();
+        } else if (mode == "stopnow" || (mode == "stoplast" && T == 0)) {
+          wpool.stop_all_workers();
+        }
+        wpool.wait_workers();
+      }
+      int ran = 0, mx = 0;
+      for (int i = 0; i < T; i++) { ran += counts[i]; mx = std::max(mx, (int)counts[i]); }
+      emit("PL tasks=%d ran=%d maxcount=%d selfconcurrent=%d joined=1", T, ran, mx, (int)maxrunning_same);
+      g_perturb.strategy = 0;
+    } else emit("ERR unknown-op");
+  }
+}
+
 // ---------------------------------------------------------------------------
 static void runCase(const Case &c) {
   if (c.stream == "dict") runDict(c);
   else if (c.stream == "vbyte") runVByte(c);
   else if (c.stream == "logseq") runLogSeq(c);
+  else if (c.stream == "pool") runPool(c);
   else emit("ERR unknown-stream %s", c.stream.c_str());
 }
 
